@@ -46,6 +46,8 @@ type scenT struct {
 	Seed   int64   `json:"seed"`
 	MaxUS  int     `json:"max_us"` // stress/bare: upper bound of the random delays
 	Parrot string  `json:"parrot"`
+	KUs    []bool  `json:"kus"`    // post: the peer's KeyUpdates (update_requested or not), in order
+	MaxWr  int     `json:"max_wr"` // post: the writer stops after this many messages at the latest
 }
 
 type event struct {
@@ -61,6 +63,12 @@ type event struct {
 	Closed   bool   `json:"closed"`
 	T        int    `json:"t"`
 	Seq      int    `json:"seq"`
+	// post-handshake phase (mode "post")
+	ID  int  `json:"id"`  // message number
+	Sum int  `json:"sum"` // digest of the message bytes
+	N   int  `json:"n"`   // bytes returned by Read / Write
+	Len int  `json:"len"` // bytes handed to Write
+	Req bool `json:"req"` // KeyUpdate with update_requested
 }
 
 type result struct {
@@ -602,7 +610,11 @@ func init() {
 						out.Emit(result{Sc: sc.ID, Mode: sc.Mode, Cfg: sc.Cfg, Ev: map[string][]event{}, Meta: map[string]any{"panic": fmt.Sprint(p)}})
 					}
 				}()
-				out.Emit(runScenario(sc))
+				if sc.Mode == "post" {
+					out.Emit(runPost(sc))
+				} else {
+					out.Emit(runScenario(sc))
+				}
 			}()
 		}
 		wg.Wait()
